@@ -40,12 +40,16 @@ lazy_static! {
 thread_local! { static ME: Cell<usize> = Cell::new(usize::MAX); }
 
 pub fn me() -> usize { ME.with(|m| m.get()) }
+pub static JOINED: std::sync::atomic::AtomicUsize = std::sync::atomic::AtomicUsize::new(0);
+/// pool threads spawned by the scheduler and not yet joined (the census MIRSEQ keeps for C17)
+pub fn live_pool_threads() -> usize { let rt = G.rt.lock().unwrap_or_else(|e| e.into_inner()); rt.pool_names - JOINED.load(std::sync::atomic::Ordering::SeqCst) }
 pub fn configured_max() -> usize { G.rt.lock().unwrap_or_else(|e| e.into_inner()).max_threads }
 
 pub fn configure(max_threads: usize, schedule: Vec<(String, String)>) {
     let mut rt = G.rt.lock().unwrap_or_else(|e| e.into_inner());
     rt.max_threads = max_threads; rt.schedule = schedule; rt.slot = 0; rt.free_run = false; rt.verdict = None;
     rt.threads.clear(); rt.cur = usize::MAX; rt.log.clear(); rt.total_steps = 0; rt.idle_passes = 0; rt.pool_names = 0;
+    JOINED.store(0, std::sync::atomic::Ordering::SeqCst);
 }
 
 fn register(name: &str) -> usize {
@@ -347,6 +351,7 @@ pub mod thread {
         pub fn join(mut self) -> std::thread::Result<T> {
             let id = self.id;
             gate("JoinHandle::join", |rt| rt.threads[id].state == TState::Finished);
+            super::JOINED.fetch_add(1, std::sync::atomic::Ordering::SeqCst);
             match self.h.take().unwrap().join() { Ok(r) => r, Err(e) => Err(e) }
         }
     }
